@@ -72,6 +72,12 @@ type ST struct {
 	Elem SpecType
 }
 
+// GM: ghost map (array term K -> V).
+type GM struct {
+	A    string
+	Elem types.Type
+}
+
 // SpecType is either a Go type or a spec-only container type.
 type SpecType struct {
 	Go   types.Type
